@@ -38,12 +38,12 @@ def step_behaviours(values, allow_fail=True, deterministic=False, fresh=False):
     if allow_fail and deterministic:
         opts += [
             st.builds(lambda k, e, v: {"kind": "fail_by_attempt", "k": k, "err": e, "v": v}, st.integers(1, 3), st.sampled_from(ERRS), values),
-            st.builds(lambda e, m: {"kind": "always_fail", "err": e, "msg": m}, st.sampled_from(ERRS), st.sampled_from(["boom", "nope", "x y"])),
+            st.builds(lambda e, m: {"kind": "always_fail", "err": e, "msg": m}, st.sampled_from(ERRS), st.sampled_from(["boom", "nope", "x y", ""])),
         ]
     elif allow_fail:
         opts += [
             st.builds(lambda k, e, v: {"kind": "fail_then_ret", "k": k, "err": e, "v": v}, st.integers(1, 3), st.sampled_from(ERRS), values),
-            st.builds(lambda e, m: {"kind": "always_fail", "err": e, "msg": m}, st.sampled_from(ERRS), st.sampled_from(["boom", "nope", "x y"])),
+            st.builds(lambda e, m: {"kind": "always_fail", "err": e, "msg": m}, st.sampled_from(ERRS), st.sampled_from(["boom", "nope", "x y", ""])),
         ]
     return st.one_of(*opts)
 
@@ -123,7 +123,10 @@ def programs(  # noqa: PLR0913
                     "op": "parallel",
                     "branches": [[pre, w, post], [{"op": "step", "beh": {"kind": "ret", "v": 7}, "sem": "least", "retry": {"kind": "none"}, "sleep": slow_sleep}]],
                     "cfg": {"max_concurrency": None, "completion": {"min": None, "tol": 2, "pct": None}}},
-                steps(vals, allow_fail=False, sems=sems), st.one_of(st.just({"op": "wait", "secs": 1}),
+                st.one_of(steps(vals, allow_fail=False, sems=sems), steps(vals, allow_fail=False, sems=sems),
+                          # a child context whose result is oversized under a patched checkpoint limit (re-traversed, not replayed, when the branch is re-run)
+                          st.builds(lambda s_, pad: {"op": "child", "body": [s_], "pad": pad}, steps(vals, allow_fail=False, sems=sems), st.sampled_from([150, 400]))),
+                st.one_of(st.just({"op": "wait", "secs": 1}),
                                                                      st.just({"op": "step", "beh": {"kind": "fail_by_attempt", "k": 1, "err": "UserError", "v": 1}, "sem": "least",
                                                                               "retry": {"kind": "table", "max": 3, "delays": [1], "nonretry": []}})),
                 steps(vals, allow_fail=False, sems=sems), st.sampled_from([1.5, 2.5, 3.5]), st.booleans())
